@@ -1,15 +1,16 @@
 #!/bin/bash
-# seedtest.sh <patch.diff> <Cxx> [<Cxx>...]   apply a seeded change to /repo, run the quick checks, undo it
+# seedtest.sh <patch.diff> <Cxx> [<Cxx>...]   apply a seeded change to a scratch worktree of /repo's HEAD,
+# run the checks against it (VERIF_REPO), remove the worktree. /repo itself is not touched.
 P=$1; shift
-cd /repo || exit 2
-if ! git diff --quiet; then echo "/repo is dirty"; exit 2; fi
-git apply "$P" || { echo "patch does not apply"; exit 2; }
+W=/tmp/seedwt.$$
+git -C /repo worktree add -q --detach $W HEAD || exit 2
+trap 'git -C /repo worktree remove --force $W' EXIT
+( cd $W && git apply "$P" ) || { echo "patch does not apply"; exit 2; }
 for c in "$@"; do
-  out=$(cd /verif && VERIF_WORKERS=${VERIF_WORKERS:-16} bin/check $c ${TIER:-quick} 2>&1)
+  out=$(cd /verif && VERIF_REPO=$W VERIF_EVIDENCE_DIR=/tmp/seedwt.$$.evidence bin/check $c ${TIER:-quick} 2>&1)
   rc=$?
   echo "== $c exit=$rc $(echo "$out" | grep -c '^VIOLATION') violation(s)"
   echo "$out" | grep -A2 "key:" | head -${SHOW:-9} | cut -c1-300
   echo "$out" | tail -1 | cut -c1-300
 done
-git checkout -- .
-git status --short | head -3
+rm -rf /tmp/seedwt.$$.evidence
